@@ -110,6 +110,10 @@ theorem ataIncr_value (c : Cell) (p n : Option Cell) :
   simp only [Option.map_some, safeApplyMetric, MExpr.eval]
   rfl
 
+/-- every function of COMMON_METRIC_DICT could be executed symbolically (no branching on values or
+neighbours, arithmetic only): the generated table says everything the functions do -/
+theorem metrics_probe_ok : Generated.PlotMetrics.ok = true := by decide
+
 /-- the metric table is exactly the twelve names the Spec knows, in snake case, without clashes -/
 theorem metric_names :
     Generated.PlotMetrics.metrics.map (toSnake ·.name) = Spec.C20.table.map (·.1) ∧
